@@ -1,58 +1,36 @@
-(* Props/C19W5.v — C19, wave 5.  sptensor.scale(factor, dims) with a numpy vector as factor over the generated tt_dimscheck: a
-   receiver that stores no entry answers before the vector is looked at (C19-N27, open; repair proposed in fixes/C19-N27.diff:
-   the shape test that d89c921 added for tensor / sptensor factors does not cover arrays); exact for a receiver with entries; the
-   answered set and the gap ("answered although ill-formed" = trigger of the finding) exactly. *)
+(* Props/C19W5.v — C19, wave 5 / 6.  sptensor.scale(factor, dims) with a numpy vector as factor over the generated tt_dimscheck:
+   the receiver that stores no entry compares the vector's shape before it returns the copy (C19-N27, repaired 98f7017): the checks
+   reject exactly when the precondition fails, whether the receiver stores an entry or not. *)
 From Coq Require Import List ZArith Bool.
 From PV Require Import Np.NpZ Np.NpZ2 Gen.GenUtils Model.C19Guards Proofs.C19W5.
 Import ListNotations.
 Local Open Scope Z_scope.
 
-Theorem C19_sptensor_scale_arr_refuted : ~ sptensor_scale_arr_stmt.
-Proof. exact sptensor_scale_arr_refuted. Qed.
-Print Assumptions C19_sptensor_scale_arr_refuted.
-Theorem C19_sptensor_scale_arr_partial : forall s flen d,
-  guard_sptensor_scale_arr s false flen d = decide (pre_sptensor_scale_arr s false flen d).
-Proof. exact sptensor_scale_arr_partial. Qed.
-Print Assumptions C19_sptensor_scale_arr_partial.
-Theorem C19_sptensor_scale_arr_exact : forall s e flen d,
-  guard_sptensor_scale_arr s e flen d = decide (modes_ok (ndim s) d && (e || one_mode_ok s flen d)).
-Proof. exact sptensor_scale_arr_exact. Qed.
-Print Assumptions C19_sptensor_scale_arr_exact.
-Theorem C19_sptensor_scale_arr_gap : forall s e flen d,
-  guard_sptensor_scale_arr s e flen d = Ok tt /\ pre_sptensor_scale_arr s e flen d = false <->
-  e = true /\ modes_ok (ndim s) d = true /\ one_mode_ok s flen d = false.
-Proof. exact sptensor_scale_arr_gap. Qed.
-Print Assumptions C19_sptensor_scale_arr_gap.
+Theorem C19_sptensor_scale_arr : forall s e flen d,
+  guard_sptensor_scale_arr s e flen d = decide (pre_sptensor_scale_arr s e flen d).
+Proof. exact sptensor_scale_arr_decides. Qed.
+Print Assumptions C19_sptensor_scale_arr.
 Example C19_sptensor_scale_arr_ex : guard_sptensor_scale_arr [2; 3; 2] false 3 [1] = Ok tt /\ guard_sptensor_scale_arr [2; 3; 2] false 5 [1] = Err
-  /\ guard_sptensor_scale_arr [2; 3; 2] false 2 [0; 2] = Err /\ guard_sptensor_scale_arr [2; 3; 2] true 5 [1] = Ok tt
-  /\ guard_sptensor_scale_arr [2; 3; 2] true 6 [0; 1] = Ok tt /\ guard_sptensor_scale_arr [2; 3; 2] true 3 [1; 1] = Err
-  /\ pre_sptensor_scale_arr [2; 3; 2] true 5 [1] = false.
+  /\ guard_sptensor_scale_arr [2; 3; 2] false 2 [0; 2] = Err /\ guard_sptensor_scale_arr [2; 3; 2] true 5 [1] = Err
+  /\ guard_sptensor_scale_arr [2; 3; 2] true 6 [0; 1] = Err /\ guard_sptensor_scale_arr [2; 3; 2] true 3 [1; 1] = Err
+  /\ guard_sptensor_scale_arr [2; 3; 2] true 3 [1] = Ok tt /\ pre_sptensor_scale_arr [2; 3; 2] true 5 [1] = false.
 Proof. repeat split; reflexivity. Qed.
 
-(* tensor.ttsv(vector, skip_dim) with the default algorithm: nothing compares the mode sizes with each other ("Sizes of all modes
-   must be the same" is a source comment), numpy's reshapes only need the element count shape[0] ** ndims: a tensor that is not
-   cubical but has that many elements is answered (C19-N28, open; repair proposed in fixes/C19-N28.diff).  Refuted in full; exact
-   on every tensor that is cubical or lacks that element count (skip_dim below ndims); every well-formed request is answered *)
-Theorem C19_ttsv_refuted : ~ ttsv_stmt.
-Proof. exact ttsv_refuted. Qed.
-Print Assumptions C19_ttsv_refuted.
-Theorem C19_ttsv_partial : forall s vlen skip,
-  cubical s = true \/ zprod s <> sz s 0 ^ ndim s ->
-  match skip with Some k => k < ndim s | None => True end ->
-  guard_ttsv s vlen skip = decide (pre_ttsv s vlen skip).
-Proof. exact ttsv_partial. Qed.
-Print Assumptions C19_ttsv_partial.
-Theorem C19_ttsv_answers_wf : forall s vlen skip, pre_ttsv s vlen skip = true -> guard_ttsv s vlen skip = Ok tt.
-Proof. exact ttsv_answers_wf. Qed.
-Print Assumptions C19_ttsv_answers_wf.
+(* tensor.ttsv(vector, skip_dim) with the default algorithm: "any(n != sz for n in self.shape) or skip_dim >= d" in front of the
+   reshapes (C19-N28, repaired 0478ea5): the checks reject exactly when the precondition (cubical tensor, skip_dim None or a mode,
+   vector of the modes' length whenever a mode is multiplied) fails — for every shape, vector length and skip_dim *)
+Theorem C19_ttsv : forall s vlen skip, guard_ttsv s vlen skip = decide (pre_ttsv s vlen skip).
+Proof. exact ttsv_decides. Qed.
+Print Assumptions C19_ttsv.
 Example C19_ttsv_ex : guard_ttsv [3; 3; 3] 3 None = Ok tt /\ guard_ttsv [3; 3; 3] 2 (Some 0) = Err /\ guard_ttsv [3; 3; 3] 2 (Some 2) = Ok tt
   /\ guard_ttsv [2; 3; 4] 2 None = Err /\ guard_ttsv [3; 3; 3] 3 (Some (-1)) = Err /\ guard_ttsv [3; 3; 3] 3 (Some 3) = Err
-  /\ guard_ttsv [2; 4; 1] 2 None = Ok tt /\ pre_ttsv [2; 4; 1] 2 None = false /\ pre_ttsv [3; 3; 3] 2 (Some 2) = true.
+  /\ guard_ttsv [2; 4; 1] 2 None = Err /\ guard_ttsv [1; 1] 1 (Some 2) = Err /\ pre_ttsv [2; 4; 1] 2 None = false /\ pre_ttsv [3; 3; 3] 2 (Some 2) = true.
 Proof. repeat split; reflexivity. Qed.
 
-(* ttensor.reconstruct(samples, modes): the modes index a Python list, so a negative mode wraps around and a mode listed twice is
-   answered (C19-N29, open; repair proposed in fixes/C19-N29.diff).  Refuted in full; exact for non-negative, pairwise different
-   modes; the answered set and the gap (= trigger of the finding) exactly *)
+(* ttensor.reconstruct(samples, modes) as in /repo HEAD: the modes index a Python list, so a negative mode wraps around and a mode
+   listed twice is answered (C19-N29, open; repair fixes/C19-N29.diff = 9d2314a pending).  Refuted in full; exact for non-negative,
+   pairwise different modes; the answered set and the gap (= trigger of the finding) exactly.  C19_reconstruct_repaired: the
+   method with the pending repair (range + distinctness test) rejects exactly when the precondition fails, for all requests *)
 Theorem C19_reconstruct_refuted : ~ reconstruct_stmt.
 Proof. exact reconstruct_refuted. Qed.
 Print Assumptions C19_reconstruct_refuted.
@@ -70,9 +48,14 @@ Theorem C19_reconstruct_gap : forall s modes nsamp,
   nsamp = zlen modes /\ forallb (wrap_range (ndim s)) modes = true /\ modes_ok (ndim s) modes = false.
 Proof. exact reconstruct_gap. Qed.
 Print Assumptions C19_reconstruct_gap.
+Theorem C19_reconstruct_repaired : forall s modes nsamp,
+  guard_reconstruct_fixed s modes nsamp = decide (pre_reconstruct s modes nsamp).
+Proof. exact reconstruct_fixed_decides. Qed.
+Print Assumptions C19_reconstruct_repaired.
 Example C19_reconstruct_ex : guard_reconstruct [2; 3; 4] [2; 0] 2 = Ok tt /\ guard_reconstruct [2; 3; 4] [2; 0] 3 = Err
   /\ guard_reconstruct [2; 3; 4] [3] 1 = Err /\ guard_reconstruct [2; 3; 4] [-1] 1 = Ok tt /\ guard_reconstruct [2; 3; 4] [0; 0] 2 = Ok tt
-  /\ guard_reconstruct [2; 3; 4] [-4] 1 = Err /\ pre_reconstruct [2; 3; 4] [-1] 1 = false /\ pre_reconstruct [2; 3; 4] [0; 0] 2 = false.
+  /\ guard_reconstruct [2; 3; 4] [-4] 1 = Err /\ pre_reconstruct [2; 3; 4] [-1] 1 = false /\ pre_reconstruct [2; 3; 4] [0; 0] 2 = false
+  /\ guard_reconstruct_fixed [2; 3; 4] [2; 0] 2 = Ok tt /\ guard_reconstruct_fixed [2; 3; 4] [-1] 1 = Err /\ guard_reconstruct_fixed [2; 3; 4] [0; 0] 2 = Err.
 Proof. repeat split; reflexivity. Qed.
 
 (* ktensor.score(other, threshold), sptensor.subdims(region), ktensor.from_vector(data, shape, contains_weights): the checks the code
